@@ -66,7 +66,7 @@ def solve_continuum(kind, dim, elem, A, b, moves, dynamic=False):
     return u.reshape(-1, dim), float(W)
 
 
-def solve_beam(dim, elem, timo, A, b):
+def solve_beam(dim, elem, timo, A, b, dynamic=False):
     from EasyFEA import Models, Simulations, Mesher, ElemType
     from EasyFEA.Geoms import Domain, Point, Line
 
@@ -90,6 +90,9 @@ def solve_beam(dim, elem, timo, A, b):
         F = A @ (np.array([0.5, 0.3, 0.2]) if dim == 3 else np.array([0.5, 0.3, 0.0]))  # the moved load
         fu = ["x", "y", "z"][:dim] if dim > 1 else ["x"]
         sim.add_neumann(tip, list(F[: len(fu)]), fu)
+        if dynamic:  # one Newmark step from rest: the mass matrix takes part
+            sim.rho = 2.0
+            sim.Solver_Set_Hyperbolic_Algorithm(dt=0.1)
         u = sim.Solve().copy().reshape(sim.mesh.Nn, -1)
     order = np.argsort(s)
     return u[order], s[order], t, ny
@@ -118,11 +121,12 @@ def run_case(job):
             if abs(W1 - W0) > TOL * abs(W0):
                 viol.append((f"energy/{key}", f"{key}: energy {W1} of the moved problem differs from {W0}", {"frame": frame, "problem": list(prob)}))
         else:
-            _, dim, elem, timo = prob
+            _, dim, elem, timo = prob[:4]
+            dyn = len(prob) > 4 and prob[4]
             if dim == 2 and not inplane(A, b):
                 return None
-            u0, s0, t0, y0 = solve_beam(dim, elem, timo, I, np.zeros(3))
-            u1, s1, t1, y1 = solve_beam(dim, elem, timo, A, b)
+            u0, s0, t0, y0 = solve_beam(dim, elem, timo, I, np.zeros(3), dyn)
+            u1, s1, t1, y1 = solve_beam(dim, elem, timo, A, b, dyn)
             if dim == 2:
                 d0, r0 = u0[:, :2], u0[:, 2]
                 d1, r1 = u1[:, :2], u1[:, 2]
@@ -151,7 +155,8 @@ def run(ctx):
     ctx.tlc_must_fail("FrameIndiff", "FrameIndiff_neg.cfg", expect="AllFramesEqual")
     frames = res.prints.get("FRAME", [])
     probs = [("iso", 2, "TRI3", False), ("ortho", 2, "QUAD4", False), ("iso", 3, "TETRA4", False), ("ortho", 3, "HEXA8", False), ("thermal", 2, "TRI6", False), ("thermal", 3, "PRISM6", False),
-             ("iso", 2, "TRI6", True), ("beam", 2, "SEG2", False), ("beam", 2, "SEG3", True), ("beam", 3, "SEG2", False), ("beam", 3, "SEG3", True)]
+             ("iso", 2, "TRI6", True), ("beam", 2, "SEG2", False), ("beam", 2, "SEG3", True), ("beam", 3, "SEG2", False), ("beam", 3, "SEG3", True),
+             ("beam", 2, "SEG2", False, True), ("beam", 3, "SEG3", False, True), ("beam", 3, "SEG2", True, True)]   # last flag: one dynamic step (mass matrix)
     if ctx.thorough:
         probs += [("ortho", 2, "TRI10", False), ("ortho", 3, "TETRA10", False), ("iso", 3, "PRISM6", True), ("beam", 2, "SEG4", False), ("beam", 3, "SEG5", False), ("beam", 3, "SEG4", True)]
     jobs = [(i, f, p) for i, f in enumerate(frames) for p in probs]
